@@ -280,7 +280,7 @@ class SliceV(AV):
 class Elem:
     """The generic element of one abstract iteration."""
 
-    __slots__ = ("id", "src", "key", "val", "target")
+    __slots__ = ("id", "src", "key", "val", "target", "info")
 
     def __init__(self, id: int, src: "Source") -> None:
         self.id = id
@@ -288,6 +288,7 @@ class Elem:
         self.key: Optional[AV] = None
         self.val: Optional[AV] = None
         self.target: Optional[AV] = None  # what the loop variable is bound to
+        self.info: Any = None
 
     def __repr__(self) -> str:
         return f"Elem#{self.id}<{self.src!r}>"
@@ -369,6 +370,22 @@ class Stream(AV):
 
     def __repr__(self) -> str:
         return f"Stream({self.kind}, {self.events!r})"
+
+
+class AbsQueue(AV):
+    """A deque whose content is not tracked concretely; operations are logged."""
+
+    __slots__ = ("id", "log", "depth", "origin", "items")
+
+    def __init__(self, id: int, depth: int = 0, origin: Any = None) -> None:
+        self.id = id
+        self.items: Optional[List[Any]] = []  # concrete content; None once it went abstract
+        self.log: List[Any] = []
+        self.depth = depth
+        self.origin = origin  # what it was built from (deque(iterable))
+
+    def __repr__(self) -> str:
+        return f"AbsQueue#{self.id}"
 
 
 class HostExc(AV):
